@@ -411,6 +411,14 @@ func main() {
 						emit("if-never", x.Pos(), x.End(), "{\n"+init+"_ = "+cond+"\n"+els+"\n}")
 						emit("if-always", x.Pos(), x.End(), "{\n"+init+"_ = "+cond+"\n"+body+"\n}")
 					}
+				case *ast.CaseClause:
+					// a case of a switch dropped (its values fall to the default), or emptied
+					if x.List != nil {
+						emit("del-case", x.Pos(), x.End(), "")
+						if len(x.Body) > 0 {
+							emit("empty-case", x.Body[0].Pos(), x.Body[len(x.Body)-1].End(), "")
+						}
+					}
 				case *ast.SliceExpr:
 					// a bound dropped: x[a:b] -> x[a:] / x[:b]
 					if x.High != nil && !x.Slice3 {
